@@ -567,6 +567,18 @@ func (dm *DagModifier) appendData(nd ipld.Node, spl chunker.Splitter) (ipld.Node
 
 	switch nd := nd.(type) {
 	case *mdag.ProtoNode:
+		// A single leaf that carries its file data inline cannot be given
+		// children: readers take file data from leaf nodes only, the inline
+		// bytes would silently vanish from the file. Like a RawNode, turn it
+		// into the first leaf of a new root first.
+		if len(nd.Links()) == 0 {
+			wrapped, err := dm.wrapInlineLeaf(nd)
+			if err != nil {
+				return nil, err
+			}
+			nd = wrapped
+		}
+
 		// ProtoNode can be directly passed to trickle.Append
 		dbp := &help.DagBuilderParams{
 			Dagserv:    dagserv,
@@ -621,6 +633,42 @@ func (dm *DagModifier) appendData(nd ipld.Node, spl chunker.Splitter) (ipld.Node
 	default:
 		return nil, ErrNotUnixfs
 	}
+}
+
+// wrapInlineLeaf returns a new file root whose only child is the given leaf,
+// if the leaf carries inline file data; otherwise it returns the leaf itself.
+// The file attributes (mode, mtime) move to the new root.
+func (dm *DagModifier) wrapInlineLeaf(leaf *mdag.ProtoNode) (*mdag.ProtoNode, error) {
+	fsn, err := ft.FSNodeFromBytes(leaf.Data())
+	if err != nil {
+		return nil, err
+	}
+	if len(fsn.Data()) == 0 {
+		return leaf, nil
+	}
+
+	root := ft.NewFSNode(ft.TFile)
+	root.AddBlockSize(uint64(len(fsn.Data())))
+	if fsn.Mode() != 0 {
+		root.SetMode(fsn.Mode())
+	}
+	if !fsn.ModTime().IsZero() {
+		root.SetModTime(fsn.ModTime())
+	}
+	rootBytes, err := root.GetBytes()
+	if err != nil {
+		return nil, err
+	}
+
+	if err := dm.dagserv.Add(dm.ctx, leaf); err != nil {
+		return nil, err
+	}
+	rootNode := mdag.NodeWithData(rootBytes)
+	rootNode.SetCidBuilder(dm.Prefix)
+	if err := rootNode.AddNodeLink("", leaf); err != nil {
+		return nil, err
+	}
+	return rootNode, nil
 }
 
 // Read data from this dag starting at the current offset
